@@ -37,6 +37,8 @@ WARN = {"none": [], "lt01": ["LT01"], "lt01cp01": ["LT01", "CP01"]}
 
 
 def scenario_text(s):
+    if "text" in s:
+        return s["text"]
     lines = [FIXABLE[s["fix"]] + ";"]
     if ERR[s["err"]] is not None:
         e = ERR[s["err"]] + ";"
@@ -48,6 +50,8 @@ def scenario_text(s):
 
 
 def scenario_cfg(s):
+    if "cfg" in s:
+        return s["cfg"]
     core = ["[sqlfluff]", "dialect = ansi", "rules = LT01,CP01"]
     supp_cfg = list(SUPP[s["supp"]][1])
     warns = list(WARN[s.get("warn", "none")])
@@ -87,9 +91,15 @@ def mkdir(s, tag):
     d = os.path.join(scratch_root(), "cli", case_id(s) + "-" + tag + "-" + str(os.getpid()))
     shutil.rmtree(d, ignore_errors=True)
     os.makedirs(d)
+    FN = s.get("file", 'f.sql')
     with open(os.path.join(d, ".sqlfluff"), "w") as f:
         f.write(scenario_cfg(s))
-    with open(os.path.join(d, "f.sql"), "w", newline="") as f:
+    for rel, content in (s.get("extra_files") or {}).items():
+        os.makedirs(os.path.dirname(os.path.join(d, rel)) or d, exist_ok=True)
+        with open(os.path.join(d, rel), "w") as f:
+            f.write(content)
+    os.makedirs(os.path.dirname(os.path.join(d, FN)) or d, exist_ok=True)
+    with open(os.path.join(d, FN), "w", newline="") as f:
         f.write(scenario_text(s))
     return d
 
@@ -118,23 +128,24 @@ def observe(s, want=("lint", "fix", "format", "api", "lint_paths")):
     """Run the scenario through the entry points. -> dict of observations."""
     text = scenario_text(s)
     flags = list(SUPP[s["supp"]][2])
+    FN = s.get("file", 'f.sql')
     obs = {"text": text}
     if "lint" in want:
         d = mkdir(s, "lp")
-        rc, out, err, exc = cli.run(["lint", "f.sql", "--format", "json"] + flags, cwd=d)
+        rc, out, err, exc = cli.run(["lint", FN, "--format", "json"] + flags, cwd=d)
         obs["lint_path"] = {"rc": rc, "records": records_of(out), "exc": exc}
         d = mkdir(s, "ls")
-        rc, out, err, exc = cli.run(["lint", "-", "--stdin-filename", "f.sql", "--format", "json"] + flags, input=text, cwd=d)
+        rc, out, err, exc = cli.run(["lint", "-", "--stdin-filename", FN, "--format", "json"] + flags, input=text, cwd=d)
         obs["lint_stdin"] = {"rc": rc, "records": records_of(out), "exc": exc}
     for cmd in ("fix", "format"):
         if cmd not in want:
             continue
         d = mkdir(s, cmd[0] + "p")
-        rc, out, err, exc = cli.run([cmd, "f.sql"] + flags, cwd=d)
-        obs[cmd + "_path"] = {"rc": rc, "text": open(os.path.join(d, "f.sql"), newline="").read(), "exc": exc}
+        rc, out, err, exc = cli.run([cmd, FN] + flags, cwd=d)
+        obs[cmd + "_path"] = {"rc": rc, "text": open(os.path.join(d, FN), newline="").read(), "exc": exc}
         d = mkdir(s, cmd[0] + "s")
-        rc, out, err, exc = cli.run([cmd, "-", "--stdin-filename", "f.sql"] + flags, input=text, cwd=d)
-        obs[cmd + "_stdin"] = {"rc": rc, "text": out, "exc": exc, "file_after": open(os.path.join(d, "f.sql"), newline="").read()}
+        rc, out, err, exc = cli.run([cmd, "-", "--stdin-filename", FN] + flags, input=text, cwd=d)
+        obs[cmd + "_stdin"] = {"rc": rc, "text": out, "exc": exc, "file_after": open(os.path.join(d, FN), newline="").read()}
     if "api" in want or "lint_paths" in want:
         from sqlfluff.core import FluffConfig, Linter
 
@@ -146,9 +157,9 @@ def observe(s, want=("lint", "fix", "format", "api", "lint_paths")):
             old = os.getcwd()
             os.chdir(d)
             try:
-                cfg = FluffConfig.from_path("f.sql", overrides=ov or None)
+                cfg = FluffConfig.from_path(FN, overrides=ov or None)
                 lnt = Linter(config=cfg)
-                lf = lnt.lint_string(text, fname="f.sql")
+                lf = lnt.lint_string(text, fname=FN)
                 obs["lint_api"] = {"records": api_records(lf)}
                 import sqlfluff
 
@@ -167,10 +178,10 @@ def observe(s, want=("lint", "fix", "format", "api", "lint_paths")):
             old = os.getcwd()
             os.chdir(d)
             try:
-                cfg = FluffConfig.from_path("f.sql", overrides=ov or None)
+                cfg = FluffConfig.from_path(FN, overrides=ov or None)
                 lnt = Linter(config=cfg)
-                res = lnt.lint_paths(("f.sql",), fix=True, apply_fixes=True, fix_even_unparsable=bool(s.get("feu")))
-                obs["fix_lint_paths"] = {"text": open("f.sql", newline="").read()}
+                res = lnt.lint_paths((FN,), fix=True, apply_fixes=True, fix_even_unparsable=bool(s.get("feu")))
+                obs["fix_lint_paths"] = {"text": open(FN, newline="").read()}
             except Exception as e:
                 obs["fix_lint_paths"] = {"exc": repr(e)[:300]}
             finally:
